@@ -137,6 +137,10 @@ def check(case):
                     V.append((f'roundtrip:{_key(x)}', f'load(dump(load(F))) vs load(F): {x}'))
             return {'v': V, 'd': runner.digest(p1.read_text()[:20000])}
         e = case.get('dump_as', R['lmf_version'])
+        if 'numscore' in case:
+            # lmf.Metadata declares confidenceScore as a number; an in-memory resource may hold one
+            R = copy.deepcopy(R)
+            _set_scores(R, case['numscore'])
         R2 = copy.deepcopy(R)
         R2['lmf_version'] = e
         before = copy.deepcopy(R2)
@@ -152,6 +156,8 @@ def check(case):
         if not ok:
             return {'v': V + [(f'load:raises-on-dump:{L[0]}', f'load of dump output raised {L}')], 'd': 'x'}
         exp = proj(R, e)
+        if 'numscore' in case:
+            _set_scores(exp, str(case['numscore']))      # the loader returns the attribute text
         if L != exp:
             for x in diff(L, exp)[:3]:
                 V.append((f'roundtrip:{_key(x)}', f'load(dump(R,{e})) (first) vs proj(R) (second): {x}'))
@@ -164,10 +170,22 @@ def check(case):
         shutil.rmtree(d, ignore_errors=True)
 
 
+def _set_scores(node, value):
+    if isinstance(node, dict):
+        m = node.get('meta')
+        if isinstance(m, dict) and 'confidenceScore' in m:
+            m['confidenceScore'] = value
+        for v in node.values():
+            _set_scores(v, value)
+    elif isinstance(node, list):
+        for v in node:
+            _set_scores(v, value)
+
+
 def check_preserve(case, d):
     """xml:space="preserve" text: load() returns the un-normalised text; does it survive?"""
     v = case['v']
-    raw = '  two  spaces\n kept '
+    raw = case.get('raw', '  two  spaces\n kept ')
     sp = 'xml:space="preserve"'
     pron = f'<Pronunciation {sp}>{raw}p</Pronunciation>' if v != '1.0' else ''
     xml = '\n'.join(xmlw.header(v)) + f"""
@@ -239,6 +257,11 @@ def space(tier, seed):
             if v != '1.0':
                 cases.append({'v': v, 'kind': 'ext', 'base': 'M', 'delta': [], 'flags': ['annot'], 'style': st})
         cases.append({'v': v, 'kind': 'feat', 'base': 'm', 'delta': [], 'preserve': True})
+        # whitespace that is not ASCII (and no ASCII irregularity) must survive as well
+        for raw in ('a\u00a0b', 'a\u3000b\u2028c', '\u2009thin', 'tab\tonly'):
+            cases.append({'v': v, 'kind': 'feat', 'base': 'm', 'delta': [], 'preserve': True, 'raw': raw})
+        for score in (0, 0.0, 0.25, 1):
+            cases.append({'v': v, 'kind': 'feat', 'base': 'M', 'delta': [], 'numscore': score})
     pvers = docs.VERSIONS if tier == 'thorough' else [docs.VERSIONS[seed % 4], '1.3']
     for v in dict.fromkeys(pvers):
         pl = docgen.payload_space(v)
